@@ -1,5 +1,5 @@
 import TexelVerif.PG.Lemmas
-import TexelVerif.PG.Deadlock
+import TexelVerif.PG.DeadlockMen
 /-!
 # C16 — reachable positions are never declared illegal; proof games are valid
 
@@ -158,6 +158,47 @@ theorem deadlocked_pieces_sound_partial (p q : Pos) (B D : Sq → Bool) (ms : Li
 theorem deadlocked_reject_sound_partial (p g : Pos) (B D : Sq → Bool) (ms : List Mv) (hB : ∀ s, B s = true → p.b[s] ≠ 0)
     (hD : deadlocked p.b B = some D) (h : QuietLine B p ms g) : verdict p.b g.b D = true :=
   deadlock_reject_sound p g B D ms hB hD h
+
+/-- a move never adds a man and a capture removes exactly one: with equally many men at both ends **no legal line
+    contains a capture** — this is the situation in which `computeDeadlockedPieces` does not return early -/
+theorem no_capture_between_equal_men (B : Sq → Bool) (p g : Pos) (ms : List Mv) (h : BlockedLine B p ms g)
+    (hv : Chess.Texel.ValidB p.b) (hep : EpPawn p) (hmen : total p.b ≤ total g.b) : QuietLine B p ms g :=
+  quiet_of_equal_men B p g ms h hv hep hmen
+
+/-- the hypotheses `ValidB` / `EpPawn` hold in every position of every legal game from the initial position -/
+theorem reachable_wellformed (p : Pos) (ms : List Mv) (h : Playable startPos ms p) : Chess.Texel.ValidB p.b ∧ EpPawn p :=
+  playable_wf startPos p ms h startPos_wf.1 startPos_wf.2
+
+/-- **the deadlocked-piece rule under the C++ precondition**: `p` is reached by a legal game, the goal `g` has at least
+    as many men as `p` (else the function returns early), the loops return `D`; then along every legal line from `p`
+    to `g` that leaves the blocked squares alone every deadlocked square keeps its piece, and the verdict is `true`.
+    Partial only in the hypothesis about the `blocked` squares (inside `BlockedLine`). -/
+theorem deadlocked_rule_reachable_partial (p g : Pos) (ms0 ms : List Mv) (B D : Sq → Bool) (h0 : Playable startPos ms0 p)
+    (hB : ∀ s, B s = true → p.b[s] ≠ 0) (hD : deadlocked p.b B = some D) (h : BlockedLine B p ms g)
+    (hmen : total p.b ≤ total g.b) :
+    (∀ s, (B s || D s) = true → g.b[s] = p.b[s]) ∧ verdict p.b g.b D = true := by
+  obtain ⟨hv, hep⟩ := reachable_wellformed p ms0 h0
+  have hq := quiet_of_equal_men B p g ms h hv hep hmen
+  exact ⟨deadlock_sound p g B D ms hB hD hq, deadlock_reject_sound p g B D ms hB hD hq⟩
+
+/-- non-vacuity of `deadlocked_rule_reachable_partial`: in the initial position with the sixteen pawns blocked the loops
+    freeze c1–f1 and c8–f8 (kernel-evaluated), 1.Nc3 is a `BlockedLine` to a position with as many men -/
+def nvBlocked : Sq → Bool := fun q => (8 ≤ q.val && q.val < 16) || (48 ≤ q.val && q.val < 56)
+def nvMove : Mv := { f := ⟨1, by decide⟩, t := ⟨18, by decide⟩, promo := 0 }
+set_option maxRecDepth 1000000 in
+example : ∃ D g, deadlocked startPos.b nvBlocked = some D ∧ D ⟨4, by decide⟩ = true ∧ BlockedLine nvBlocked startPos [nvMove] g ∧
+    total startPos.b ≤ total g.b ∧ (∀ s, nvBlocked s = true → startPos.b[s] ≠ 0) ∧
+    (deadlocked startPos.b nvBlocked).map (fun D => (allSq.filter D).map (·.val)) = some [2, 3, 4, 5, 58, 59, 60, 61] := by
+  have hD : (deadlocked startPos.b nvBlocked).isSome = true := by decide +kernel
+  obtain ⟨D, hD'⟩ := Option.isSome_iff_exists.1 hD
+  refine ⟨D, fixupEP (apply startPos nvMove), hD', ?_, ?_, ?_, ?_, ?_⟩
+  · have : (deadlocked startPos.b nvBlocked).map (fun D => D ⟨4, by decide⟩) = some true := by decide +kernel
+    rw [hD'] at this; simpa using this
+  · refine .cons _ _ _ _ (by decide +kernel) ⟨⟨4, by decide⟩, ?_⟩ (by decide +kernel) (.nil _)
+    unfold Chess.Texel.KingAt; decide +kernel
+  · decide +kernel
+  · decide +kernel
+  · decide +kernel
 
 /-- a `QuietLine` is in particular a legal line of the specification -/
 theorem quiet_line_playable (B : Sq → Bool) (p q : Pos) (ms : List Mv) (h : QuietLine B p ms q) : Playable p ms q :=
